@@ -26,7 +26,11 @@ theorem create_hex4 {c1 c2 c3 c4 : Char} (h1 : HexCh c1) (h2 : HexCh c2) (h3 : H
   have f2 : ¬ (',' = c2) := by intro h; subst h; simp at e2
   have f3 : ¬ (',' = c3) := by intro h; subst h; simp at e3
   have f4 : ¬ (',' = c4) := by intro h; subst h; simp at e4
-  simp [create, splitExpr, numericOfStr, initHint, a1, a2, a3, a4, b1, b2, b3, b4, d1, d4, f1, f2, f3, f4]
+  have s1 : isSym c1 = true := by simp [isSym, b1]
+  have s2 : isSym c2 = true := by simp [isSym, b2]
+  have s3 : isSym c3 = true := by simp [isSym, b3]
+  have s4 : isSym c4 = true := by simp [isSym, b4]
+  simp [create, splitExpr, numericOfStr, initHint, a1, a2, a3, a4, s1, s2, s3, s4, d1, d4, f1, f2, f3, f4]
 
 theorem parseBase16_hex4 {a b c d : Nat} (ha : a < 16) (hb : b < 16) (hc : c < 16) (hd : d < 16) :
     parseBase 16 [hexChar a, hexChar b, hexChar c, hexChar d] = ((a * 16 + b) * 16 + c) * 16 + d := by
